@@ -612,6 +612,30 @@ def step (s : State) : Event → State
 
 def run (s : State) (evs : List Event) : State := evs.foldl step s
 
+-- ---------------------------------------------------------------- what a recorded history must satisfy
+
+/-- the recorded draw of a batch's random seats is legal for the seat manager it is applied to -/
+def BatchLegal (s : State) (js : List Join) (ch : List Int) : Prop :=
+  (randomIds js).isEmpty = false →
+    SM.legalChoice (if (fixedMap js).isEmpty then s.sm else (SM.assign s.sm (fixedMap js)).1) (randomIds js) ch = true
+
+instance (s : State) (js : List Join) (ch : List Int) : Decidable (BatchLegal s js ch) := by
+  unfold BatchLegal; exact inferInstance
+
+/-- the only thing a recorded history must satisfy: every recorded random seat draw is one `RandomAssignSeats` could have
+made (a fact about the recording — the driver checks it on every trace) -/
+def DrawLegal (s : State) : Event → Prop
+  | .reserve j ch => findPlayerIdx s j.id = none → BatchLegal s [j] ch
+  | .update js lv ch => BatchLegal (if lv.isEmpty then s else (batchRemove s lv).1) js ch
+  | _ => True
+
+instance (s : State) (e : Event) : Decidable (DrawLegal s e) := by
+  cases e <;> (unfold DrawLegal; exact inferInstance)
+
+def DrawsLegal : State → List Event → Prop
+  | _, [] => True
+  | s, e :: t => DrawLegal s e ∧ DrawsLegal (step s e) t
+
 def normalize (s : State) : State := { s with sm := SM.normalize s.sm }
 
 end TB
